@@ -269,7 +269,7 @@ func observe(entry string, src []byte) sexp.Node {
 		tree = wDocument(d)
 		errs = wErrs(es)
 	}
-	return sexp.T("run", sexp.T("lines", sexp.Int(countLines(src))), sexp.T("toks", toks), eof, sexp.T("obs", tree, errs))
+	return sexp.T("run", sexp.T("lines", sexp.Int(countLines(src))), sexp.T("toks", toks), eof, sexp.T("obs", tree, errs), sexp.T("src", sexp.Bytes(src)))
 }
 
 func mkCase(entry, family string, expect sexp.Node, srcs ...[]byte) sexp.Node {
